@@ -42,8 +42,13 @@ func vFieldValueBytes(val client.FieldValue) ([]byte, error) {
 		return append([]byte{0x60 + byte(len(v))}, []byte(v)...), nil
 	case nil:
 		return append([]byte{}, client.CborNil...), nil
+	case int64:
+		// (the engine's model encoding of a 64-bit integer — one header byte and the 64 bits — which its
+		// cbor.Unmarshal model reads back; this function only runs inside the solver run)
+		u := uint64(v)
+		return []byte{0x1b, byte(u >> 56), byte(u >> 48), byte(u >> 40), byte(u >> 32), byte(u >> 24), byte(u >> 16), byte(u >> 8), byte(u)}, nil
 	}
-	panic("vFieldValueBytes: only string fields are modelled")
+	panic("vFieldValueBytes: only string and small integer fields are modelled")
 }
 
 var sFields = []string{"f", "g"}
